@@ -156,6 +156,10 @@ def check_diff(c, ctx):
     if n_cal != len(got.conformalization):
         ctx.violation("split_not_reproducible", f"{n_cal} vs {len(got.conformalization)}", c, sig="split")
         return
+    if n_cal >= len(rep) or n_cal < 1 or cal["geographic_unit_fips"].duplicated().any():
+        # "held-out calibration units": at least one reporting unit is used for training only, none is counted twice
+        ctx.violation("calibration_not_held_out", f"{n_cal} calibration units out of {len(rep)} reporting units (alpha={alpha})", c, sig="not_held_out")
+        return
     q = alpha * (1 + 1 / n_cal)
     scores = np.maximum(cal["lower_bounds"].to_numpy(float), cal["upper_bounds"].to_numpy(float))
     w = cal["last_election_results_turnout"].to_numpy(float)
